@@ -235,7 +235,8 @@ fn c18(seed: u64, cases: usize, model_path: &str) -> serde_json::Value {
         let mut c = good.clone(); let mut inp = inputs[own].clone(); let (mut pe, mut po, mut me) = (r.below(n as u64) as usize, vec![r.below(n as u64) as usize], own);
         let class = if case < 6 { ["p_eval", "p_out_index", "own_index"][case % 3] } else { ["own_index", "p_eval", "p_out_index", "input_len", "p_out_empty", "circ_no_outputs", "circ_out_reg_range", "circ_read_before_write", "circ_input_position", "circ_inst_out_range"][r.below(10) as usize] };
         match class {
-            "own_index" => me = far, "p_eval" => pe = far, "p_out_index" => po.push(far), "p_out_empty" => po.clear(),
+            // an own index that is not a party, with the inputs that party would have had or with NO inputs (nothing to be "of the wrong length")
+            "own_index" => { me = far; if case % 2 == 0 { inp.clear(); } }, "p_eval" => pe = far, "p_out_index" => po.push(far), "p_out_empty" => po.clear(),
             "input_len" => { if r.bool() || inp.is_empty() { inp.push(true) } else { inp.pop(); } }
             "circ_no_outputs" => c.output_regs.clear(), "circ_out_reg_range" => c.output_regs.push(Reg(c.max_reg_count as u32 + r.below(3) as u32)),
             "circ_read_before_write" => { let fresh = c.max_reg_count as u32; c.max_reg_count += 1; c.insts.push(Inst { out: Reg(0), op: Op::Not(Not(Reg(fresh))) }); }
